@@ -350,7 +350,7 @@ def jobs(tier, seed):
     from vf.runner import concur_jobs
     js += concur_jobs(len(CONCUR_SCEN) - (1 if tier == "quick" else 0), curve=t43, deep=(tier == "thorough"))
     for i in range(2):
-        js.append({"name": f"concurrent/{i}", "part": "concur", "curve": t43, "idx": i, "weight": 10})
+        js.append({"name": f"concurrent-verify/{i}", "part": "concur", "curve": t43, "idx": i, "weight": 10})
     return js
 
 
@@ -409,7 +409,7 @@ def run_job(job):
         scen = [[tup[3], tup[C.n - 3]], [tup[3], flipped]][job["idx"]]
         case = {"curve": cv, "calls": [list(t) for t in scen]}
         calls, judge = _concur_setup(case)
-        ex = concur.explore_calls(acc, calls, ("bits/utils.py", "bits/ecmath.py", "bits/pem.py"), 1 if job["tier"] == "quick" else 2, judge, "concur", case)
+        ex = concur.explore_calls(acc, calls, ("bits/utils.py", "bits/ecmath.py", "bits/pem.py"), 1 if job["tier"] == "quick" else 2, judge, "concur", case, max_exec=6000 if job["tier"] == "quick" else 100_000)
         acc.ob("concurrent_first_calls", ex.executions)
         acc.sample({"concurrent_sig_verify": job["idx"], "executions": ex.executions})
         return acc.result()
